@@ -7,6 +7,7 @@ import (
 	"fmt"
 	"os"
 
+	_ "slimverif/harness/fam/idx"
 	_ "slimverif/harness/fam/trie"
 	"slimverif/harness/lp"
 )
